@@ -30,9 +30,12 @@ for line in txt.splitlines():
 meta = dict(
     id=sid, breaks_property=prop,
     produced_by='fresh sub-agent given only the property text and a scratch worktree of /repo (HEAD fcf22ad)',
+    confirm_output=(open(f'{d}/confirm_output.txt').read().splitlines() if os.path.exists(f'{d}/confirm_output.txt') else None),
     needs_to_manifest=needs,
     confirmed_by_me=['66 unit tests pass with the change', 'demo fails with the change', 'demo passes without the change'],
-    ran=[f'tools/seed_eval.sh {sid} <worktree> <subdir> "{" ".join(checks)}"  (applies patch.diff to /repo, runs ./check.sh <C> quick, restores /repo and the clean-tree evidence)'],
+    ran=[(f'tools/seed_eval2.sh {sid} <worktree> <subdir> "{" ".join(checks)}"  (confirms tests/demo in the worktree, then runs ./check.sh <C> quick in a private sandbox copy of /verif + /repo with patch.diff applied; /repo is never touched)'
+          if os.path.exists(f'{d}/confirm_output.txt') else
+          f'tools/seed_eval.sh {sid} <worktree> <subdir> "{" ".join(checks)}"  (applies patch.diff to /repo, runs ./check.sh <C> quick, restores /repo and the clean-tree evidence)')],
     checks=checks,
     caught=any(c['exit_code'] == 1 and c['violation_reported'] for c in checks.values()),
     caught_with_failing_input=any(c['with_failing_input'] for c in checks.values()),
